@@ -6,6 +6,7 @@ fn verif_parse<'i>(tokens: Vec<LexToken<'i>>, tokens_raw: Vec<LexToken<'i>>, src
     requires forall|i: int| 0 <= i < tokens@.len() ==> is_tok(#[trigger] tokens@[i].kind), tokens@.len() + 8 <= usize::MAX,
         tokens@.len() == n_real(tokens_raw@, tokens_raw@.len() as int),
     ensures single_root(r.green@), btoks(r.green@) == raw_prefix(tokens_raw@, src@, tokens_raw@.len() as int),
+        r.green@[0] == BEv::Start(SyntaxKind::SOURCE_FILE as u16),
         forall|j: int| 0 <= j < r.errors@.len() ==> err_range_ok(tokens@, eof_range(src), (#[trigger] r.errors@[j]).range),   // C20
 {
     let p = verif_top(tokens, tokens_raw, src);
